@@ -20,7 +20,7 @@ from ..histgen import gen_dataset
 ID = "C20"
 TIERS = {"quick": dict(runs=3000, budget=40, det=12, chunk=20),
          "thorough": dict(runs=300000, budget=560, det=120, chunk=40)}
-INCONCLUSIVE_CEILING = 0.12
+INCONCLUSIVE_CEILING = 0.25   # guard bands around -tol and numerically borderline covariances are common by construction
 RULE = ("seeded runs in three configurations: (convert) components_from_metric on symmetric matrices "
         "of size 1-8: PSD of every rank, diagonal, PSD plus noise inside/outside tolerance, "
         "indefinite, non-symmetric, spectra 1e-12..1e12, tol None or >= 0, with a counting proxy "
